@@ -38,7 +38,7 @@ def run(out, sc, tier, seed):
     out.add_model("YarlThreads[negative: ProvisionalPublish]", res, expect_violation=("SequentialResults",),
                   what="non-vacuity: a cache entry published before it is final is read by the other thread")
     out.exhaustive = True
-    nstress, nsched = (6, 40) if tier == "quick" else (60, 1500)
+    nstress, nsched = (12, 40) if tier == "quick" else (120, 1500)
     shards = []
 
     def one(args):
